@@ -195,6 +195,29 @@ def run(ctx):
             if gated != (free if key in Ssig else 'ok 0'):
                 ctx.fail('seen-rule gate: result is neither unrestricted nor empty as the set prescribes', desc, fingerprint=['seen'] + desc)
 
+    # a seen-rule set given as it is written (pairs still carrying [nb] / [X]): membership is asked of the
+    # ERASED pair, so an un-erased member lets nothing through unless its erased form is a member too
+    marked = [(a, b) for a, b in pairs['en'] if any(m in str(a) + str(b) for m in ('[nb]', '[X]'))]
+    raw = rng.sample(marked, min(len(marked), 150)) + [(Category.parse('NP[nb]/N'), Category.parse('N')),
+                                                       (Category.parse('S[X]/(S[X]\\NP)'), Category.parse('S[dcl]\\NP'))]
+    S = set(raw)
+    Ssig = {(sig(a), sig(b)) for a, b in S}
+    setup_lines.append(('setup', G.set_seen_line('raw_en', sorted(S, key=lambda p: (str(p[0]), str(p[1])))), 'ok', 'en'))
+    probes = raw + [(a.clear_features('nb'), b.clear_features('nb')) for a, b in raw[:60]] + rng.sample(pairs['en'], min(len(pairs['en']), 100))
+    n_marked_hits = 0
+    for x, y in probes:
+        desc = ['en', canonical(x), canonical(y), 'seen set with un-erased members']
+        _, free = G.call_rules(en.apply_binary_rules, x, y)
+        _, gated = G.call_rules(en.apply_binary_rules, x, y, seen_rules=S)
+        cases.append(('en_bin', f'en_bin raw_en {enc_cat(x)} {enc_cat(y)}', gated, desc))
+        ctx.evaluations += 1
+        key = (erase_sig(sig(x), ('X', 'nb')), erase_sig(sig(y), ('X', 'nb')))
+        n_marked_hits += (free != 'ok 0' and key not in Ssig)
+        if gated != (free if key in Ssig else 'ok 0'):
+            ctx.fail('seen-rule gate: the pair with [X] / [nb] erased is ' + ('' if key in Ssig else 'not ') + 'in the set, but the result is '
+                     + ('not the unrestricted one' if key in Ssig else 'not empty'), desc, fingerprint=['seen-raw'] + desc)
+    ctx.extra['raw_seen_pairs_that_would_fire_but_are_gated'] = n_marked_hits
+
     # an empty seen-rule collection is a filter too: nothing is in it, so nothing may fire
     setup_lines.append(('setup', G.set_seen_line('empty', []), 'ok', 'empty'))
     for lang, mod in (('en', en), ('ja', ja)):
